@@ -240,11 +240,13 @@ func (rd *HandlingDataManager) initializeStreams() (err error) {
 	if err != nil {
 		return fmt.Errorf("failed to create stream: %w", err)
 	}
-	rd.stream = stream
-	rd.stream.WithHub(rd.lunarHub)
-	if err = rd.stream.Initialize(); err != nil {
+	// The new engine serves transactions only once it is fully initialised: until then,
+	// and when the initialisation fails, the previous engine stays in place.
+	stream.WithHub(rd.lunarHub)
+	if err = stream.Initialize(); err != nil {
 		return fmt.Errorf("failed to initialize streams: %w", err)
 	}
+	rd.stream = stream
 
 	rd.stream.InitializeHubCommunication()
 	if err = config.WaitForProxyHealthcheck(); err != nil {
